@@ -45,6 +45,9 @@ type HSConfig struct {
 	PassC, PassS           []byte
 	Auth                   []byte
 	KeyC, KeyS             *keychain.PrivKeyECDH
+	// KeyCOverride, if set, is used as the initiator's static key instead
+	// of KeyC (e.g. an impostor whose PubKey() is not backed by its ECDH).
+	KeyCOverride keychain.SingleKeyECDH
 	// In KK mode: the remote static key each side believes the other has
 	// (nil = the true one).
 	CExpect, SExpect *btcec.PublicKey
@@ -64,8 +67,11 @@ type HSResult struct {
 	C2S, S2C *sim.Half
 }
 
-func newSide(key *keychain.PrivKeyECDH, remote *btcec.PublicKey, pass, auth []byte) *NoiseSide {
-	s := &NoiseSide{Key: key}
+func newSide(key keychain.SingleKeyECDH, remote *btcec.PublicKey, pass, auth []byte) *NoiseSide {
+	s := &NoiseSide{}
+	if k, ok := key.(*keychain.PrivKeyECDH); ok {
+		s.Key = k
+	}
 	s.CD = mailbox.NewConnData(key, remote, pass, auth,
 		func(k *btcec.PublicKey) error { s.RemoteCB = k; s.RemoteN++; return nil },
 		func(d []byte) error { s.AuthCB = append([]byte{}, d...); s.AuthCBn++; return nil },
@@ -86,7 +92,11 @@ func RunHandshake(cfg HSConfig) *HSResult {
 			remS = cfg.SExpect
 		}
 	}
-	c := newSide(cfg.KeyC, remC, cfg.PassC, nil)
+	var ckey keychain.SingleKeyECDH = cfg.KeyC
+	if cfg.KeyCOverride != nil {
+		ckey = cfg.KeyCOverride
+	}
+	c := newSide(ckey, remC, cfg.PassC, nil)
 	s := newSide(cfg.KeyS, remS, cfg.PassS, cfg.Auth)
 	res := &HSResult{C: c, S: s}
 
@@ -198,4 +208,102 @@ func WriteRecords(m *mailbox.Machine, plains [][]byte) ([]Record, error) {
 		out = append(out, Record{Header: w.chunks[0], Body: w.chunks[1], Plain: append([]byte{}, p...)})
 	}
 	return out, nil
+}
+
+// Impostor is a static key whose public half is somebody else's: PubKey()
+// returns Claimed, ECDH is computed with Own.
+type Impostor struct {
+	Claimed *btcec.PublicKey
+	Own     *keychain.PrivKeyECDH
+}
+
+func (i *Impostor) PubKey() *btcec.PublicKey { return i.Claimed }
+func (i *Impostor) ECDH(pub *btcec.PublicKey) ([32]byte, error) {
+	return i.Own.ECDH(pub)
+}
+
+// FlakySigner fails its ECDH operation when Fail is set.
+type FlakySigner struct {
+	*keychain.PrivKeyECDH
+	Fail bool
+}
+
+func (f *FlakySigner) ECDH(pub *btcec.PublicKey) ([32]byte, error) {
+	if f.Fail {
+		return [32]byte{}, fmt.Errorf("signer unavailable (injected)")
+	}
+	return f.PrivKeyECDH.ECDH(pub)
+}
+
+// RunPipelined performs a clean handshake in which the party that sends the
+// last act writes its first record right behind it, and the adversary-free
+// transport delivers the last act and the record's header in one chunk. It
+// returns what the other party read as its first record.
+func RunPipelined(cfg HSConfig, plain []byte, readMax func() int) (hsErrC, hsErrS error, got []byte, readErr error) {
+	var remC, remS *btcec.PublicKey
+	if cfg.KK {
+		remC, remS = cfg.KeyS.PubKey(), cfg.KeyC.PubKey()
+	}
+	c := newSide(cfg.KeyC, remC, cfg.PassC, nil)
+	s := newSide(cfg.KeyS, remS, cfg.PassS, cfg.Auth)
+	var err error
+	c.M, err = mailbox.NewBrontideMachine(&mailbox.BrontideMachineConfig{Initiator: true, HandshakePattern: c.CD.HandshakePattern(), ConnData: c.CD, MinHandshakeVersion: cfg.CMin, MaxHandshakeVersion: cfg.CMax})
+	if err != nil {
+		return err, nil, nil, nil
+	}
+	s.M, err = mailbox.NewBrontideMachine(&mailbox.BrontideMachineConfig{Initiator: false, HandshakePattern: s.CD.HandshakePattern(), ConnData: s.CD, MinHandshakeVersion: cfg.SMin, MaxHandshakeVersion: cfg.SMax})
+	if err != nil {
+		return nil, err, nil, nil
+	}
+	a, b, a2b, b2a := sim.NewDuplexPair()
+	// the writer of the last act: the initiator in XX (act 3 = its 2nd
+	// message), the responder in KK (act 2 = its 1st message)
+	lastIdx, lastHalf, readerHalf := 1, a2b, a2b
+	writer, reader, wconn, rconn := c.M, s.M, a, b
+	if cfg.KK {
+		lastIdx, lastHalf, readerHalf = 0, b2a, b2a
+		writer, reader, wconn, rconn = s.M, c.M, b, a
+	}
+	var held []byte
+	lastHalf.Hook = func(idx int, p []byte) [][]byte {
+		switch {
+		case idx == lastIdx:
+			held = p
+			return nil
+		case idx == lastIdx+1:
+			return [][]byte{append(append([]byte{}, held...), p...)}
+		}
+		return [][]byte{p}
+	}
+	readerHalf.ReadMax = readMax
+	var wg sync.WaitGroup
+	wg.Add(2)
+	var werr, rerr error
+	go func() { // the party that writes the last act, then a record at once
+		defer wg.Done()
+		werr = writer.DoHandshake(wconn)
+		if werr == nil {
+			if werr = writer.WriteMessage(plain); werr == nil {
+				_, werr = writer.Flush(wconn)
+			}
+		}
+		if werr != nil {
+			a2b.Close()
+			b2a.Close()
+		}
+	}()
+	go func() {
+		defer wg.Done()
+		rerr = reader.DoHandshake(rconn)
+		if rerr == nil {
+			got, readErr = reader.ReadMessage(rconn)
+		}
+		a2b.Close()
+		b2a.Close()
+	}()
+	wg.Wait()
+	if cfg.KK {
+		return rerr, werr, got, readErr
+	}
+	return werr, rerr, got, readErr
 }
